@@ -1103,12 +1103,24 @@ func TestVerifC19(t *testing.T) {
 					return fmt.Sprintf("distinct len=%d alphabet=other %s", len(l.id), dump())
 				}
 				return fmt.Sprintf("distinct len=%d %s", len(l.id), dump())
-			case op[0] == "ft" || op[0] == "acquire" || op[0] == "release" || op[0] == "setexpire" || op[0] == "acquirectx" || op[0] == "releasectx":
+			case op[0] == "ft" || op[0] == "setexpire":
 				r, ok := simple(op)
 				if !ok {
 					return "bad-op"
 				}
 				res = r
+			case op[0] == "acquire" || op[0] == "release" || op[0] == "acquirectx" || op[0] == "releasectx":
+				// a plain call: the hook only records the commands it sends (command trace: its own script run, nothing else)
+				if len(op) == 2 {
+					inst(op[1])
+				}
+				hook.arm(0, nil, false)
+				r, ok := simple(op)
+				hook.disarm()
+				if !ok {
+					return "bad-op"
+				}
+				return r + " " + cmdsTok() + " " + dump()
 			case op[0] == "scriptflush" && len(op) == 1:
 				// Redis forgets the cached scripts: the next script run gets NOSCRIPT for its EVALSHA and sends EVAL
 				conn, err := getRedis(client)
